@@ -114,6 +114,7 @@ class Built:
         self.lists = {}                      # shared `errors` list objects, by cell number
         self.methods = []                    # (endpoint, pjrpc Method)
         self.funcs = []
+        self.errobjs = {}                    # annotated openrpc.Error objects (own wording), shared between the methods that name them
         kind = c['kind']
         for i, m in enumerate(c['methods']):
             if only is not None and i != only:
@@ -125,7 +126,13 @@ class Built:
                 cell = ann['cell']
                 if cell not in self.lists:
                     self.lists[cell] = [ERR[e] for e in c['heap'][cell]]
-                if kind == 'openrpc':
+                if kind == 'openrpc' and ann.get('err_obj'):
+                    # the user's own Error objects (their wording, not the class's), one object shared by every method naming it
+                    for e in c['heap'][cell]:
+                        if e not in self.errobjs:
+                            self.errobjs[e] = openrpc.Error(code=ERR[e].code, message=f'annotated wording of {e}', data={'kind': e})
+                    kw['errors'] = [self.errobjs[e] for e in c['heap'][cell]]
+                elif kind == 'openrpc':
                     # the OpenRPC annotation converts the classes into Error objects (a new list per method)
                     kw['errors'] = self.lists[cell]
                 else:
@@ -144,6 +151,9 @@ class Built:
                     kw['servers'] = [openapi.Server(url='http://srv')]
                 if ann.get('security'):
                     kw['security'] = [{'basic': []}]
+                if ann.get('params_schema'):
+                    # the user's own request schema: nothing is extracted for the request, the response still is
+                    kw['params_schema'] = {'a': {'type': 'integer'}, 'b': {'type': 'string'}}
                 if kw:
                     openapi.annotate(**kw)(f)
             else:
@@ -188,7 +198,8 @@ class Built:
 
     def snapshot(self):
         """annotations and user objects, by value"""
-        snap = {'lists': {k: [e.__name__ for e in v] for k, v in self.lists.items()}}
+        snap = {'lists': {k: [e.__name__ for e in v] for k, v in self.lists.items()},
+                'errobjs': {k: repr(v) for k, v in sorted(self.errobjs.items())}}
         metas = []
         for f in self.funcs:
             meta = utils.get_meta(f)
@@ -357,8 +368,10 @@ def generate(tier, rng):
                 ann['examples'] = rng.choice([True, True, 'null'])
             if rng.random() < 0.2:
                 ann['servers'] = True
-            if kind == 'openrpc' and rng.random() < 0.3:
+            if rng.random() < (0.3 if kind == 'openrpc' else 0.2):
                 ann['params_schema'] = True
+            if kind == 'openrpc' and ann.get('cell') is not None and rng.random() < 0.4:
+                ann['err_obj'] = True
             if kind == 'openapi':
                 if rng.random() < 0.35:
                     ann['prefix'] = rng.choice(['P', 'Q_', ''])
@@ -384,6 +397,18 @@ def generate(tier, rng):
     yield make_case('openapi', [{'template': 'model', 'endpoint': '', 'name': 'a', 'ann': {'prefix': 'P'}},
                                 {'template': 'nested', 'endpoint': '', 'name': 'b', 'ann': {}}], [], ['pydantic'])
     yield make_case('openrpc', [{'template': 'scalar', 'endpoint': '', 'name': 'a', 'ann': {}}], [], ['base'])
+    # the user's own request schema on the first / only method: its extracted response components are still registered
+    for t in ('model', 'ctx', 'container'):
+        for v in ('3.1.0', '3.0.3'):
+            yield make_case('openapi', [{'template': t, 'endpoint': '', 'name': 'first', 'ann': {'params_schema': True}}], [], ['pydantic'], version=v)
+            yield make_case('openapi', [{'template': t, 'endpoint': '', 'name': 'first', 'ann': {'params_schema': True}},
+                                        {'template': 'model', 'endpoint': '', 'name': 'second', 'ann': {}}], [], ['pydantic'], version=v)
+    # an annotated Error object (own wording) whose code a docstring of ANOTHER method also raises, shared by two methods
+    for order in (('scalar', 'container'), ('container', 'scalar'), ('model', 'nested'), ('scalar', 'scalar')):
+        for cell in (['2001'], ['2002', '2001'], ['notfound']):
+            yield make_case('openrpc', [{'template': order[0], 'endpoint': '', 'name': 'm1', 'ann': {'cell': 0, 'err_obj': True}},
+                                        {'template': order[1], 'endpoint': '', 'name': 'm2', 'ann': {'cell': 0, 'err_obj': True}}],
+                            [cell], ['docstring'], generations=2)
     # two different methods exposed under the SAME name on two endpoints, kept apart by their own component prefixes
     for t1, t2 in (('scalar', 'model'), ('model', 'nested'), ('container', 'scalar')):
         for gens in (1, 2):
